@@ -3,6 +3,7 @@
 quick check of its target property, and record the verdict in seeded/REGRESSION.json.  /repo must be clean."""
 import sys, os, subprocess, json, time
 V = os.path.dirname(os.path.dirname(os.path.abspath(__file__)))
+os.environ["VERIF_EVIDENCE_DIR"] = "/tmp/fm_evidence_seeded"
 def sh(cmd, **kw): return subprocess.run(cmd, shell=True, capture_output=True, text=True, **kw)
 def main():
     assert sh("git -C /repo status --porcelain --untracked-files=no").stdout.strip() == "", "/repo dirty"
